@@ -1222,20 +1222,20 @@ impl HelperAttributeKinds {
             }
         }
     }
-    fn is_match_cmp_attr(&self, op: CompareOp) -> bool {
+    fn is_derived(&self, op: CompareOp) -> bool {
         match op {
-            CompareOp::Ord => {
-                self.ord
-                    || self.is_match_cmp_attr(CompareOp::PartialEq)
-                    || self.is_match_cmp_attr(CompareOp::Eq)
-            }
-            CompareOp::PartialOrd => {
-                self.partial_ord || self.is_match_cmp_attr(CompareOp::PartialEq)
-            }
-            CompareOp::Eq => self.eq || self.is_match_cmp_attr(CompareOp::PartialEq),
+            CompareOp::Ord => self.ord,
+            CompareOp::PartialOrd => self.partial_ord,
+            CompareOp::Eq => self.eq,
             CompareOp::PartialEq => self.partial_eq,
             CompareOp::Hash => self.hash,
         }
+    }
+    /// Returns true if the helper attribute `#[op(...)]` affects any of the traits being derived.
+    fn is_match_cmp_attr(&self, op: CompareOp) -> bool {
+        CompareOp::VARIANTS
+            .iter()
+            .any(|&target| self.is_derived(target) && op.is_effects_to(target))
     }
 
     fn is_match(&self, attr: &Attribute) -> bool {
